@@ -224,6 +224,13 @@ func (nr *NativeRunner) confirm(v *Violation) {
 			}
 		}
 	}
+	if strings.HasPrefix(v.Label, "allocation larger than the limit") {
+		for _, a := range res.Asserts {
+			if !a.OK && strings.HasPrefix(a.Label, "allocation larger than the limit") {
+				fail = v.Label
+			}
+		}
+	}
 	switch {
 	case res.Diverged != "":
 		v.Confirmed, v.NativeOut = "not-reproduced", "native run diverged: "+res.Diverged
